@@ -91,6 +91,7 @@ class Def:
         self.root = j["root"]
         self.events = j["events"]            # name -> {base:..}
         self.kleene = j.get("kleene", False) # True if rows may use the trigger 'any'
+        self.serial = j.get("serial", False) # drivers link Boost.Serialization and offer saveload
         self.flags = j.get("flags", [])
         self.configs = j.get("configs", CONFIGS)
         self.machines = {}
@@ -98,13 +99,13 @@ class Def:
             m = {"name": mn, "init": mj["init"], "states": {}, "table": [parse_row(r) for r in mj.get("table", [])],
                  "smtab": [parse_irow(r, mn) for r in mj.get("itable", [])],
                  "hist": mj.get("history", {"kind": "none", "events": []}),
-                 "policy": mj.get("policy", "after_entry"),
+                 "policy": mj.get("policy", "after_entry"), "ser": mj.get("ser", False),
                  "queue_first": mj.get("queue_first", False)}
             m["hist"].setdefault("events", [])
             for sn, sj in mj.get("states", {}).items():
                 st = {"kind": sj.get("kind", "simple"), "defers": sj.get("defers", []), "flags": sj.get("flags", []),
                       "itab": [parse_irow(r, sn) for r in sj.get("itable", [])], "zone": sj.get("zone", 0),
-                      "event": sj.get("event", ""), "ends": sj.get("ends", [])}
+                      "event": sj.get("event", ""), "ends": sj.get("ends", []), "ser": sj.get("ser", False)}
                 m["states"][sn] = st
             self.machines[mn] = m
         # states mentioned only in rows / init get default attributes
@@ -115,7 +116,7 @@ class Def:
             for n in names:
                 if n not in m["states"]:
                     m["states"][n] = {"kind": "sub" if n in self.machines else "simple", "defers": [], "flags": [],
-                                      "itab": [], "zone": 0, "event": "", "ends": []}
+                                      "itab": [], "zone": 0, "event": "", "ends": [], "ser": False}
             for n, st in m["states"].items():
                 if n in self.machines: st["kind"] = "sub"
         self.order = self.topo()
@@ -196,6 +197,7 @@ def emit_tla(d, modname=None):
            "  flags |-> %s," % tseq(q(f) for f in d.flags),
            "  guards |-> %s," % tset(d.guards),
            "  sticky |-> %s," % tset(d.sticky),
+           "  serial |-> %s," % ("TRUE" if d.serial else "FALSE"),
            "  counted |-> %s," % tset([e for e, ej in d.events.items() if ej.get("kind", "trivial") in ("nontrivial", "throwmove", "selfref")]),
            "  M |-> ["]
     ms = []
@@ -208,6 +210,8 @@ def emit_tla(d, modname=None):
         s += "      flags |-> %s,\n" % tfun(sts, lambda v: tset(v["flags"]))
         s += "      ends |-> %s,\n" % tfun(sts, lambda v: tset(v["ends"]))
         s += "      xpev |-> %s,\n" % tfun(sts, lambda v: q(v["event"]))
+        s += "      dorder |-> %s,\n" % tseq(q(sn) for sn in sts if sn not in d.machines and sts[sn]["kind"] == "simple")
+        s += "      ser |-> %s, selfser |-> %s,\n" % (tset([k for k, v in sts.items() if v.get("ser")]), "TRUE" if m.get("ser") else "FALSE")
         s += "      itab |-> %s,\n" % tfun(sts, lambda v: tseq(trow(r) for r in v["itab"]))
         s += "      hist |-> [kind |-> %s, events |-> %s], policy |-> %s, qfirst |-> %s,\n" % (
             q(m["hist"]["kind"]), tset(m["hist"]["events"]), q(m["policy"]), "TRUE" if m["queue_first"] else "FALSE")
@@ -246,6 +250,7 @@ def emit_cpp(d, cfg, opts=None):
     elif b11: L.append("#define VCFG_BACK11 1")
     else: L.append("#define VCFG_BACK 1")
     if fct: L.append("#define VCFG_FCT 1")
+    if d.serial and not mp11: L.append("#define VCFG_SER 1")
     L.append('#include "verif_rt.hpp"')
     L.append("using namespace vrt; using namespace boost::msm::front;")
     L.append("const char* const vrt::EVNAME[] = {%s};" % ", ".join(q(e) for e in d.evnames))
@@ -274,7 +279,7 @@ def emit_cpp(d, cfg, opts=None):
             if st["kind"] == "sub": continue
             t = sname(mn, sn); sid = d.sid(sn)
             if st["kind"] == "simple":
-                L.append("typedef St<%d,%s,%s,%s > %s;" % (sid, evlist(st["defers"]), fllist(st["flags"]), irows(st["itab"]), t))
+                L.append("typedef St<%d,%s,%s,%s,%s > %s;" % (sid, evlist(st["defers"]), fllist(st["flags"]), irows(st["itab"]), "true" if st.get("ser") else "false", t))
             elif st["kind"] == "explicit":
                 L.append("typedef StX<%d,%d,%s,%s,%s > %s;" % (sid, st["zone"], evlist(st["defers"]), fllist(st["flags"]), irows(st["itab"]), t))
             elif st["kind"] == "entrypt":
@@ -286,7 +291,7 @@ def emit_cpp(d, cfg, opts=None):
             elif st["kind"] == "interrupt":
                 L.append("typedef StI<%d,%s,%s > %s;" % (sid, evlist(st["ends"]), fllist(st["flags"]), t))
         # the machine front-end
-        L.append("struct M_%s_ : MDef<M_%s_,%d> {" % (mn, mn, d.sid(mn)))
+        L.append("struct M_%s_ : MDef<M_%s_,%d,%s> {" % (mn, mn, d.sid(mn), "true" if m.get("ser") else "false"))
         L.append("  typedef mpl::vector<%s> initial_state;" % ",".join(sname(mn, s) for s in m["init"]))
         rows = []
         for r in m["table"]:
@@ -380,13 +385,20 @@ def emit_cpp(d, cfg, opts=None):
         for s in subs:
             L.append("  if (sub_active<M_%s,M_%s>(f)) { o << \",\"; dump_q_%s(f.template get_state<M_%s&>(), o); }" % (mn, s, s, s))
         L.append("}")
+        # entry counters of the machine itself and of its simple states (C15/C16), in the order of the states dictionary
+        simple = [sn for sn in m["states"] if sn not in d.machines and m["states"][sn]["kind"] in ("simple",)]
+        L.append("static void dump_dt_%s(M_%s& f, std::ostream& o) { o << \"\\\"%s\\\":[\" << f.data%s << \"]\";" % (
+            mn, mn, mn, "".join(' << "," << f.template get_state<S_%s_%s&>().data' % (mn, sn) for sn in simple)))
+        for s2 in subs:
+            L.append("  if (sub_active<M_%s,M_%s>(f)) { o << \",\"; dump_dt_%s(f.template get_state<M_%s&>(), o); }" % (mn, s2, s2, s2))
+        L.append("}")
         L.append("static void stamp_%s(M_%s& f, int i) { f.vinst = i;" % (mn, mn))
         for s in subs:
             L.append("  stamp_%s(f.template get_state<M_%s&>(), i);" % (s, s))
         L.append("}")
     L.append("static void gen_stamp(Top& t, int i) { stamp_%s(t, i); }" % d.root)
-    L.append('static void gen_dump(Top& t, std::ostream& o) { o << "\\"st\\":{"; dump_st_%s(t, o); o << "},\\"q\\":{"; dump_q_%s(t, o); o << "},\\"fl\\":" << flags_of(t); }'
-             % (d.root, d.root))
+    L.append('static void gen_dump(Top& t, std::ostream& o) { o << "\\"st\\":{"; dump_st_%s(t, o); o << "},\\"q\\":{"; dump_q_%s(t, o); o << "},\\"dt\\":{"; dump_dt_%s(t, o); o << "},\\"fl\\":" << flags_of(t); }'
+             % (d.root, d.root, d.root))
     if mp11:
         L.append("static long gen_drain(Top& t, bool single) { return (long)(single ? t.process_event_pool(1) : t.process_event_pool()); }")
     else:
